@@ -83,6 +83,8 @@ def rule_codes(ctx):
 
 
 def run(ctx):
+    from ..rules import generic as _G11
+    _G11.rule_F11(ctx, ['partitura.score'], 'C10')
     G.rule_F8a(ctx, ENTRY, "maps")
     M.rule_F7d_measure_maps(ctx)
     M.rule_backfill_siblings(ctx)
